@@ -1,10 +1,13 @@
 package props
 
 import (
+	"bufio"
 	"fmt"
+	"os"
 	"sort"
 	"strconv"
 	"strings"
+	"testing/iotest"
 	"time"
 
 	"pault.ag/go/debian/changelog"
@@ -32,16 +35,46 @@ func dumpClEntries(es changelog.ChangelogEntries) string {
 	return "[" + strings.Join(xs, ";") + "]"
 }
 
+func clResult(es changelog.ChangelogEntries, err error) string {
+	if err != nil {
+		if len(es) != 0 {
+			return "err+value"
+		}
+		return "err"
+	}
+	return "ok " + dumpClEntries(es)
+}
+
 var changelogImpl = map[string]core.Adapter{
 	"changelog": func(a []string) string {
-		es, err := changelog.Parse(strings.NewReader(core.MustUnHex(a[0])))
-		if err != nil {
-			if len(es) != 0 {
-				return "err+value"
-			}
-			return "err"
+		text := core.MustUnHex(a[0])
+		res := clResult(changelog.Parse(strings.NewReader(text)))
+		// the other ways in must agree: a reader that hands out one byte at a time, the
+		// file entry points, and ParseOne for the first entry
+		if one := clResult(changelog.Parse(iotest.OneByteReader(strings.NewReader(text)))); one != res {
+			return "onebyte-differs " + res + " / " + one
 		}
-		return "ok " + dumpClEntries(es)
+		if len(text)%7 == 0 {
+			f, err := os.CreateTemp("", "verif-changelog-")
+			if err != nil {
+				return "infrastructure"
+			}
+			defer os.Remove(f.Name())
+			f.WriteString(text)
+			f.Close()
+			if viaFile := clResult(changelog.ParseFile(f.Name())); viaFile != res {
+				return "parsefile-differs " + res + " / " + viaFile
+			}
+			e1, err1 := changelog.ParseFileOne(f.Name())
+			e2, err2 := changelog.ParseOne(bufio.NewReader(strings.NewReader(text)))
+			if (err1 == nil) != (err2 == nil) || (err1 == nil && dumpClEntries(changelog.ChangelogEntries{*e1}) != dumpClEntries(changelog.ChangelogEntries{*e2})) {
+				return "parsefileone-differs"
+			}
+			if strings.HasPrefix(res, "ok [(") && (err2 != nil || !strings.HasPrefix(res, "ok ["+strings.TrimSuffix(strings.TrimPrefix(dumpClEntries(changelog.ChangelogEntries{*e2}), "["), "]"))) {
+				return "parseone-differs " + res
+			}
+		}
+		return res
 	},
 	// law: a text that ends inside an entry gives an error; otherwise exactly the
 	// entries it holds. args: hex text, number of complete entries, 1 if text remains after them
